@@ -30,7 +30,12 @@ func (fr *Frame) loopModSet(li *loopInfo) map[string]bool {
 	for b := range li.blocks {
 		vc.modSetBlock(fr.fn, b, set, map[*ssa.Function]bool{})
 	}
-	// closures called inside may modify captured cells: covered by modSetCall of MakeClosure
+	// ghost variables may be assigned by site clauses inside the loop
+	if fr.top.contract != nil {
+		for _, gv := range fr.top.contract.GhostVars {
+			set["GV_"+funcKey(fr.top.fn)+"."+gv.Name] = true
+		}
+	}
 	return set
 }
 
@@ -77,7 +82,7 @@ func (fr *Frame) checkInvariant(h, from *ssa.BasicBlock, kind string) {
 		if lbl == "" {
 			lbl = fmt.Sprint(i + 1)
 		}
-		g := env.eval(c.E).T()
+		g := env.evalGoal(c.E).T()
 		fr.oblige(kind, fmt.Sprintf("loop%d.%s.from-b%d", fr.loopOrd[h], lbl, from.Index), g, c.Props, token.NoPos, "invariant "+c.Src)
 	}
 	// variant (decreases) on back edges
@@ -116,7 +121,7 @@ func (fr *Frame) assumeInvariant(h *ssa.BasicBlock) {
 	env := fr.headerEnv(h)
 	env.what = fmt.Sprintf("loop %d invariant of %s", fr.loopOrd[h], funcKey(fr.fn))
 	for _, c := range invs {
-		fr.vc.assume(fr.curR, env.eval(c.E).T())
+		fr.vc.assume(fr.curR, env.evalAssume(c.E).T())
 	}
 }
 
@@ -195,7 +200,7 @@ func (fr *Frame) runSite(sc *SiteClause, env *Env, pos token.Pos, lbl string) {
 	vc := fr.vc
 	switch sc.What {
 	case "assert":
-		g := env.eval(sc.Clause.E).T()
+		g := env.evalGoal(sc.Clause.E).T()
 		l := sc.Clause.Label
 		if l == "" {
 			l = lbl
@@ -204,7 +209,7 @@ func (fr *Frame) runSite(sc *SiteClause, env *Env, pos token.Pos, lbl string) {
 		vc.assume(fr.curR, g)
 	case "assume":
 		vc.note("site assume in contract of " + funcKey(fr.fn) + ": " + sc.Clause.Src)
-		vc.assume(fr.curR, env.eval(sc.Clause.E).T())
+		vc.assume(fr.curR, env.evalAssume(sc.Clause.E).T())
 	case "ghost":
 		rhs := env.eval(sc.GhostRHS)
 		fr.ghostAssign(sc.GhostLHS, rhs, env)
@@ -223,7 +228,20 @@ func (fr *Frame) ghostAssign(lhs *SExpr, rhs Val, env *Env) {
 	src := strings.TrimSpace(lhs.Src)
 	i := strings.LastIndex(src, ".")
 	if i < 0 {
-		vc.errorf("ghost update: left-hand side must be obj.field: %s", src)
+		if fr.top.contract != nil {
+			for _, gv := range fr.top.contract.GhostVars {
+				if gv.Name == src {
+					fam := "GV_" + funcKey(fr.top.fn) + "." + src
+					vc.family(fam, specSort(gv.GType))
+					fr.cur.heap = vc.heapSet(fr.cur.heap, fam, rhs.T())
+					if specSort(gv.GType) == "Int" {
+						fr.addHint(rhs.T())
+					}
+					return
+				}
+			}
+		}
+		vc.errorf("ghost update: left-hand side must be obj.field or a ghostvar: %s", src)
 		return
 	}
 	objE, err := parseSExpr(src[:i])
